@@ -1,7 +1,7 @@
 //! C15 (secondarily C12, C13): LOCK / STEP RECORDER for the real store and the conformance replay of real
 //! multi-threaded schedules in the two-lock LTS (`lean/NomtModel/Api/Locks2*.lean`, driver mode `locks`).
 //!
-//! The hook H18 (`nomt::verif_hook::{set_lock_handler, LockEvent}`) reports, from inside the real code, the start
+//! The hook LR (`nomt::verif_hook::{set_lock_handler, LockEvent}`) reports, from inside the real code, the start
 //! of every API call (with the identifiers the LTS needs) and a named marker at every micro-step of the locking
 //! protocol: acquisition / release of the access lock for reading and for writing, `try_write` success / failure,
 //! every `shared.lock()` scope, the sampling of a session's base root, `Nomt::root`, reads through a session, the
